@@ -1,4 +1,5 @@
 import HpackVerif.Props.Common
+import HpackVerif.Proofs.Utf8Proof
 /-! # C18 — header text/bytes and container forms are interchangeable at the API
 
 `FieldForm` / `Container` model the shapes `Encoder.encode` accepts (2-tuples, 3-tuples, `HeaderTuple`,
@@ -17,7 +18,11 @@ theorem encoder_depends_on_norm (e : EncState) (c1 c2 : Container) (huff : Bool)
   unfold EncState.encodeApi; rw [h]
 
 /-- text and its UTF-8 bytes are interchangeable -/
-theorem text_is_utf8 (s : String) : (PyStr.text s).toBytes = (PyStr.bytes s.toUTF8.toList).toBytes := rfl
+theorem text_is_utf8 (s : String) : (PyStr.text s).toBytes = (PyStr.bytes s.toUTF8.data.toList).toBytes := rfl
+
+/-- the UTF-8 encoding of any text is accepted by the strict decoder: text-mode decoding never fails on a
+    field that was given as text -/
+theorem text_is_valid_utf8 (s : String) : validUtf8 (PyStr.text s).toBytes = true := validUtf8_text s
 
 /-- two-tuples, three-tuples with a false flag and plain header tuples are interchangeable … -/
 theorem plain_forms (n v : PyStr) :
